@@ -67,6 +67,7 @@ def generate(rng, focus, tier="quick"):
         "optimiser": ("equal" if rng.random() < (0.5 if f == "C19" else 0.25) else "fixed"),
         "scale": rng.choice([1.0, 1.0, 0.5, 2.0, 0.3, 1, 2, 3]),       # Python ints too
         "opt_call": rng.choice(["kw", "kw", "pos", "pos_scale_only", "np64"]),
+        "uni_ret": rng.choice(["list", "list", "tuple", "gen", "gen"]),
         "fee": fee, "initial_cash": rng.choice([1e3, 1e4, 1e5, 1e6, 1e7, 54321.98]),
         "start": start, "universe_kind": uk,
         "quotes0": dict((a, _quote(rng, low=rng.random() < 0.25)) for a in assets),
@@ -146,6 +147,9 @@ def generate(rng, focus, tier="quick"):
                 w[keys[0]] = round(w[keys[0]] + rng.choice([-9e-6, -2e-6, 1e-6, 2e-6, 6e-6, 2e-5]), 6)
             if not long_only and rng.random() < 0.3:
                 w[keys[-1]] = -w[keys[-1]]
+        if len(keys) > 1 and rng.random() < 0.05:
+            # one weight that is negligible next to the others, down to the subnormal range: still a legal weight
+            w[keys[-1]] = rng.choice([1e-300, 0.5 ** 1021, 5e-324, 1e-18]) * (-1 if (not long_only and rng.random() < 0.3) else 1)
         if "all_zero_weights" in enabled and rng.random() < 0.1:
             w = dict((a, 0.0) for a in w)
         if long_only and rng.random() < 0.06:
@@ -192,10 +196,17 @@ class _Alpha(object):
 
 
 class _Universe(object):
-    def __init__(self):
+    """harness stub: a scripted universe; what it hands back may be a list, a tuple or a one-shot iterator"""
+
+    def __init__(self, ret="list"):
         self.assets = []
+        self.ret = ret
 
     def get_assets(self, dt):
+        if self.ret == "tuple":
+            return tuple(self.assets)
+        if self.ret == "gen":
+            return (a for a in list(self.assets))
         return list(self.assets)
 
 
@@ -284,7 +295,7 @@ def _run(plan, ctx):
             return t_.to_pydatetime() if (cfg.get("py_datetime") and e > -2000000000) else t_
         uni = DynamicUniverse(dict((a, _entry(a, e)) for a, e in cfg["entries"].items()))
     else:
-        uni = scripted = _Universe()
+        uni = scripted = _Universe(cfg.get("uni_ret", "list"))
     alpha = _Alpha()
     if cfg["long_only"]:
         sizer = DollarWeightedCashBufferedOrderSizer(broker, PID, qb, cash_buffer_percentage=cfg["cash_buffer"])
